@@ -28,6 +28,12 @@ Proof. exact eval_errors_diagnosed. Qed.
 (* and nothing else is: signature matching is the only guard before a body runs *)
 Theorem C06_host_errors_escape : forall x, In x host_classes -> exists c, classify_eval (show_exn x) = Escaped c.
 Proof. exact host_errors_escape. Qed.
+(* except stack exhaustion, which every recursing stage reports (nesting or length beyond the Python stack:
+   100 nested brackets, a sum of 990 terms; the run checks the depths themselves under the default limit) *)
+Theorem C06_stack_exhaustion_diagnosed :
+  classify_stage 1 "RecursionError" = Diagnosed "1" /\ classify_eval "RecursionError" = Diagnosed "1"
+  /\ classify_display "RecursionError" = Diagnosed "1".
+Proof. exact stack_exhaustion_diagnosed. Qed.
 
 (* the modelled evaluators raise only diagnosed classes: for ALL expression trees the outcome
    is a value or a status-1 diagnostic (Unmodelled = the model declines to predict: float powers) *)
@@ -139,6 +145,7 @@ Print Assumptions C06_lex_diagnosed.
 Print Assumptions C06_parse_diagnosed.
 Print Assumptions C06_eval_diagnosed.
 Print Assumptions C06_host_errors_escape.
+Print Assumptions C06_stack_exhaustion_diagnosed.
 Print Assumptions C06_arith_total_partial.
 Print Assumptions C06_quantity_total_partial.
 Print Assumptions C06_lazy_total.
